@@ -1,90 +1,92 @@
-"""C04 - MinFlowDecomp (DAG) always finds a decomposition and it has the fewest paths.
+"""C04 - MinFlowDecompCycles finds a decomposition into the fewest walks.
 
-Minimality and completeness quantify over solver verdicts and Dilworth-type bounds: not decidable statically.
-Decided: four structural necessary conditions of the search (DESIGN C04.R1-R4).
+Minimality, completeness and the scale-invariance clause are statements about solver verdicts, Dilworth-type bounds and numerics:
+not decidable statically.  Decided: the structural necessary conditions of the search (as C03) and the repetition caps.
 """
 from __future__ import annotations
 
-import ast
-import re
-
 from sa.pm import Program, dotted, norm, AnalysisError
-from sa.worlds import passed
-from rules.c13 import k_loop_protocol, no_process_exit, SolveFlow, loop_with_solver_run
-from rules.search import range_rule, lowerbound_rule
+from rules.c03 import run
 
 EXPLANATION = (
-    "Decides structural necessary conditions of the minimum search of MinFlowDecomp on all paths of the current tree: "
-    "(R1) the k-loop starts at the lower bound, ascends by one, moves on only after an infeasible verdict, returns True "
-    "only with a proven-optimal model and publishes that model's solution; the guessed-weights model may replace the "
-    "k-model only under an equality test between its path count and k; (R2) the loop's exclusive upper bound is >= |E|+1 "
-    "(polynomial normal-form comparison; witness: a single-edge graph has optimum 1 = |E|); (R3) every candidate that "
-    "can become the lower bound is a tabled provider combined by max, width queries ignore the synthetic source/sink "
-    "edges together with the user's ignore set, provider functions return len() of a *solved* sub-model's solution; "
-    "(R4) no process exit is reachable.  NOT decided: minimality, completeness, validity of each provider as a bound."
+    "Decides structural necessary conditions of the minimum search of MinFlowDecompCycles on all paths of the current tree: (R1) search "
+    "protocol (start at the lower bound, ascend by one, next k only after an infeasible verdict, True only with a proven model, publish that "
+    "model's solution, elapsed-time exit returns False, guessed-weights model adopted only if its number of walks equals k); (R2) the k-range "
+    "reaches |E| (+1 exclusive); (R3) lower-bound candidates are tabled providers composed by max; the condensation-width query ignores the "
+    "synthetic source/sink edges together with the user's ignore set; the min-gen-set bound is not computed from ignored edges' values; "
+    "(R4) no process exit; (R5) repetition caps: after initialisation a cap is only ever overwritten with 1 and only for non-SCC edges; the cap "
+    "each walk model passes is the tabled provider (own flow / w_max, max reachable value, |E||V|); the variable bound of x and the big-M of "
+    "row 22a are that same cap (formulation table).  NOT decided: minimality, completeness, validity of the condensation width as a bound, "
+    "scale invariance for non-integer weights."
 )
-DECIDED = ["search protocol of MinFlowDecomp.solve on every path", "range reaches the largest attainable optimum",
-           "lower-bound candidates come from tabled providers, composed by max, with the width-call convention",
-           "no process exit"]
-NOT_DECIDED = ["the number of returned paths is minimum (for all smaller k none exists)", "solve() succeeds on every conserving positive flow",
-               "each provider is a valid lower bound (Dilworth / generating-set arguments)"]
-
-CLS = "MinFlowDecompCycles"
-SOL_KEY = "walks"
+DECIDED = ["search protocol on every path", "range reaches the largest attainable optimum", "lower-bound providers and width-call convention",
+           "no process exit", "per-edge repetition caps: providers, overwrite discipline, bound and big-M tied to the cap"]
+NOT_DECIDED = ["the number of returned walks is minimum", "solve() succeeds on every decomposable instance",
+               "multiplying all flows by a common factor changes nothing (numeric sufficiency of the caps)"]
 
 
-def given_weights_guard(prog, rep, RID, cname, sol_key):
-    f = prog.own_method(cname, "solve")
-    loop = loop_with_solver_run(None, prog, f)
-    loopvar = norm(loop.target)
-    flow = SolveFlow(prog, f)
-    hits = []
+# ----------------------------------------------------------------------------------------------- C04.R5
+import ast as _ast
+from sa.pm import calls_in as _calls_in, is_super_call as _is_super, kwarg as _kwarg, walk_no_nested as _wnn
+from rules.formulation import conformance as _conformance
+from rules.semantic import enclosing_tests as _enclosing_tests
+from rules.common import local_single_defs as _lsd, substitute_locals as _subst
 
-    orig = flow.on_assign
+CAP_PROVIDERS = {
+    "kFlowDecompCycles": ("max_edge_repetition_dict", r"^\{\(u, v\): data\[self\.flow_attr\] if self\.flow_attr in data else self\.w_max for u, v, data in self\.G\.edges\(data=True\)\}$",
+                          "the edge's own flow (x*w <= f, w >= 1); w_max for attribute-less helper edges"),
+    "kLeastAbsErrorsCycles": ("max_edge_repetition_dict", r"^self\.G\.compute_edge_max_reachable_value\(flow_attr=self\.flow_attr\)$", "largest weight reachable from / reaching the edge"),
+    "kMinPathErrorCycles": ("max_edge_repetition_dict", r"^self\.G\.compute_edge_max_reachable_value\(flow_attr=self\.flow_attr\)$", "largest weight reachable from / reaching the edge"),
+    "kPathCoverCycles": ("max_edge_repetition", r"^self\.G\.number_of_edges\(\) \* self\.G\.number_of_nodes\(\)$", "|E|*|V| bounds the length of a shortest covering walk"),
+}
 
-    def on_assign(stmt, target, value, state):
-        orig(stmt, target, value, state)
-        if dotted(value) == "self._given_weights_model":
-            flow.record(hits, (stmt, target, state))
-    flow.on_assign = on_assign
-    flow.run(f.node)
-    pat = re.compile(r"^len\(self\._given_weights_model\.get_solution\(.*\)\[['\"]%s['\"]\]\)==%s$|^%s==len\(self\._given_weights_model\.get_solution\(.*\)\[['\"]%s['\"]\]\)$"
-                     % (sol_key, re.escape(loopvar), re.escape(loopvar), sol_key))
+
+def repetition_caps(prog, rep, RID):
+    f = prog.own_method("AbstractWalkModelDiGraph", "__init__")
     n = 0
-    for stmt, target, state in hits:
-        inside = any(x is stmt for x in ast.walk(loop))
-        if not inside:
-            continue
-        n += 1
-        ok = state is not None
-        for w in (state or []):
-            good = False
-            for k, v in w.d.items():
-                if k.startswith("?") and v == frozenset(["True"]):
-                    t = (k[5:] if k.startswith("?was:") else k[1:]).replace(" ", "")
-                    if pat.match(t):
-                        good = True
-            opt = w.get("self._given_weights_model")
-            if not (good and opt is not None and opt <= {"opt"}):
-                ok = False
-        key = f"{cname}.solve:adopt-given-weights-model"
-        if ok:
-            rep.ok(RID, key, f"guessed-weights model adopted only if solved and its number of {sol_key} equals {loopvar}", f.loc(stmt),
-                   sample={"assignment": norm(stmt), "guard": f"len(...['{sol_key}']) == {loopvar} and is_solved()"})
-        else:
-            rep.violation(RID, key, f"`{norm(stmt)}`: the guessed-weights model replaces the k-model without the test that its number of "
-                          f"{sol_key} equals the k under test (a larger, non-minimal decomposition could be returned for this k)", f.loc(stmt))
+    for st in _wnn(f.node):
+        if isinstance(st, _ast.Assign):
+            for t in st.targets:
+                if isinstance(t, _ast.Subscript) and dotted(t.value) == "self.edge_upper_bounds":
+                    n += 1
+                    tests = _enclosing_tests(f.node, st)
+                    lit1 = isinstance(st.value, _ast.Constant) and st.value.value == 1
+                    guard = any((not pol and "self.G.is_scc_edge(" in norm(tt) and not norm(tt).startswith("not")) or
+                                (pol and norm(tt).startswith("not self.G.is_scc_edge(")) for tt, pol in tests)
+                    key = "AbstractWalkModelDiGraph.__init__:cap-overwrite"
+                    if lit1 and guard:
+                        rep.ok(RID, key, "caps are overwritten only with 1 and only for edges outside every SCC", f.loc(st), sample={"stmt": norm(st), "guard": [norm(tt) for tt, _ in tests]})
+                    else:
+                        rep.violation(RID, key, f"`{norm(st)}` under {[norm(tt) for tt, _ in tests]}: the per-edge repetition cap is overwritten with something other than 1 or "
+                                      "not only for non-SCC edges - cycles can then not be traversed as often as a minimum decomposition needs", f.loc(st))
     if n == 0:
-        raise AnalysisError(f"{cname}.solve: adoption site of the given-weights model not found")
+        raise AnalysisError("AbstractWalkModelDiGraph.__init__: cap overwrite not found")
+    for cname, (kw, pat, why) in CAP_PROVIDERS.items():
+        g = prog.own_method(cname, "__init__")
+        sup = [c for c in _calls_in(g.node) if _is_super(c) and c.func.attr == "__init__"]
+        if not sup:
+            raise AnalysisError(f"{cname}.__init__: super().__init__ not found")
+        v = _kwarg(sup[0], kw)
+        key = f"{cname}.__init__:cap-provider"
+        if v is None:
+            rep.violation(RID, key, f"`{kw}` is not passed to the walk base class: every edge is capped at the default 1 repetition", g.loc(sup[0]))
+            continue
+        defs = {}
+        for st in _wnn(g.node):
+            if isinstance(st, _ast.Assign) and len(st.targets) == 1 and dotted(st.targets[0]) and dotted(st.targets[0]).startswith("self."):
+                defs.setdefault(dotted(st.targets[0]), st.value)
+        txt = norm(v)
+        if txt in defs:
+            txt = norm(defs[txt])
+        import re as _re
+        if _re.match(pat, txt):
+            rep.ok(RID, key, f"{kw} = {txt[:80]} ({why})", g.loc(sup[0]), sample={"class": cname, "cap": txt[:120]})
+        else:
+            rep.violation(RID, key, f"{kw} = `{txt[:100]}` is not the tabled provider ({why}): walks that must repeat an edge more often are cut off", g.loc(sup[0]))
 
 
-def check(prog: Program, rep):
-    rep.rule("C04.R1", "search protocol of MinFlowDecomp.solve", floor=6)
-    k_loop_protocol(prog, rep, "C04.R1", CLS, "solve", {"self.get_lowerbound_k()"})
-    given_weights_guard(prog, rep, "C04.R1", CLS, SOL_KEY)
-    rep.rule("C04.R2", "k-range reaches the largest attainable optimum", floor=1)
-    range_rule(prog, rep, "C04.R2", CLS, "solve")
-    rep.rule("C04.R3", "lower-bound composition", floor=4)
-    lowerbound_rule(prog, rep, "C04.R3", CLS, allow_log2=False)
-    rep.rule("C04.R4", "no process exit in library code", floor=1)
-    no_process_exit(prog, rep, "C04.R4")
+def check(prog, rep):
+    run(prog, rep, "C04", "MinFlowDecompCycles", "walks", False, 4)
+    rep.rule("C04.R5", "per-edge repetition caps: providers, overwrite discipline, variable bound and big-M tied to the cap", floor=7)
+    repetition_caps(prog, rep, "C04.R5")
+    _conformance(prog, rep, "C04.R5", "C04")
